@@ -264,6 +264,16 @@ fn item<C: Suite>(ctx: &mut Ctx, n: u16, t: u16, kind: &str, seedk: &str) {
             let mut s3 = s2.clone();
             s3.insert(j, share_from::<C>(share_sc::<C>(&shares[&j]) - sc_u64::<C>(i as u64 + 1)));
             judge_alteration(ctx, &co, &s3, "cancelling-pair", &msg);
+            // two cheaters whose alterations do not cancel: every detection mode names what plain FROST names
+            let mut s4 = s2.clone();
+            s4.insert(j, share_from::<C>(share_sc::<C>(&shares[&j]) + sc_u64::<C>(i as u64 + 7)));
+            judge_alteration(ctx, &co, &s4, "two-cheaters", &msg);
+            if signers.len() >= 3 {
+                let l = signers[(i + 2) % signers.len()];
+                let mut s5 = s4.clone();
+                s5.insert(l, share_from::<C>(neg::<C>(share_sc::<C>(&shares[&l]))));
+                judge_alteration(ctx, &co, &s5, "three-cheaters", &msg);
+            }
         }
     }
     // threshold enforcement is unchanged under randomization: on the same material the randomized coordinator gives the
